@@ -3,7 +3,7 @@
    cancelled / purged". (That an accepted job does run is progress: C03; identity of ID and
    data is checked by the monitors and, for stored jobs, by C12.) Model coq/SliceJob.v. *)
 From Coq Require Import List Arith.
-From VQ Require Import SliceJob SliceJobProofs SliceWake SliceWakeProofs.
+From VQ Require Import SliceJob SliceJobProofs SliceWake SliceWakeProofs SlicePool SlicePoolProofs.
 Import ListNotations.
 
 (* The worker function is entered at most once per job, in every schedule, with any number
@@ -33,6 +33,15 @@ Theorem C01_nothing_dispatchable_left_at_rest :
   forall s, KReachable s -> at_rest s = true -> guard s = false.
 Proof. exact at_rest_nothing_dispatchable. Qed.
 Print Assumptions C01_nothing_dispatchable_left_at_rest.
+
+(* A dispatched job has a goroutine (coq/SlicePool.v): only the thread that took a node out of
+   the idle list — PopBack, or a Remove that returned true — sends to it, so a job payload in a
+   node's channel always finds a live server with no stop payload ahead of it, and that server
+   can receive it. *)
+Theorem C01_dispatched_job_finds_a_live_goroutine :
+  forall s, PReachable s -> jobsq s = 1 -> alive s >= 1 /\ stopsq s = 0.
+Proof. exact job_finds_a_server. Qed.
+Print Assumptions C01_dispatched_job_finds_a_live_goroutine.
 
 (* The worker function is entered only on a job that a dispatcher claimed after Dequeue handed
    it out: [EWfEnter] is enabled only in [LClaimed], which only a successful claim by the
